@@ -239,6 +239,10 @@ func runTriple(t *rapid.T, e serverEntry, tr triple) string {
 		jc := lib.DrawJumpClock(t, "clock")
 		modelOpts = append(modelOpts, resource.WithClock(jc))
 		clockDesc = fmt.Sprintf("clock stepping by %v", jc.Offsets)
+	} else if e.TakesOptions && rapid.IntRange(0, 4).Draw(t, "stoppedClock") == 2 {
+		// a simulated clock that has not been started: every change happens at the zero time, which is a time like any other
+		modelOpts = append(modelOpts, resource.WithClock(stoppedClock{}))
+		clockDesc = "clock standing at the zero time"
 	}
 	// keyed resources: the model may be configured to treat ids case-insensitively (an id interceptor); clients then
 	// name the item in whatever case they like, in every RPC
@@ -625,6 +629,11 @@ func scribble(m protoreflect.Message) {
 		return true
 	})
 }
+
+// stoppedClock always reads the zero time.
+type stoppedClock struct{}
+
+func (stoppedClock) Now() time.Time { return time.Time{} }
 
 func txtAll(ms []proto.Message) []string {
 	var out []string
